@@ -18,8 +18,9 @@ T_VarDec == IsEvent("varint_dec") /\ LET r == Rec[l]
 T_Packet == IsEvent("packet") /\ LET r == Rec[l]
                                     p == ParsePacket(r.b, r.dcidlen) IN
              IF r.ok THEN p.ok /\ p.ty = r.ty /\ p.f = r.f /\ p.len = r.len ELSE ~p.ok
-T_PnDec == IsEvent("pn_dec") /\ LET r == Rec[l] IN r.got = PnDecode(r.largest, r.trunc, r.bits) + 0 * r.base
-T_PnEnc == IsEvent("pn_enc") /\ LET r == Rec[l] IN r.len = PnLen(r.pn, r.largest)
+T_PnDec == IsEvent("pn_dec") /\ LET r == Rec[l] IN r.got = PnDecodeG(r.largest, r.trunc, r.bits, r.low, r.top)
+\* the sender may choose more bytes than the minimum, never fewer, and the receiver recovers the number
+T_PnEnc == IsEvent("pn_enc") /\ LET r == Rec[l] IN r.len >= PnLen(r.pn, r.largest) /\ r.back
 TNext == T_Frame \/ T_VarEnc \/ T_VarDec \/ T_Packet \/ T_PnDec \/ T_PnEnc
 TSpec == TInit /\ [][TNext]_l
 =============================================================================
